@@ -22,16 +22,65 @@ Proof.
   destruct ((s0 =? s) && (n0 =? n)) eqn:E; simpl; [assumption|]. rewrite E. assumption.
 Qed.
 
-(* var a = {}; a.a = a : no amount of fuel lets export finish *)
-Definition cyclic_heap : heap := [[([97], HRef 0)]].
-Lemma export_cyclic_diverges : forall fuel, gexport fuel cyclic_heap (HRef 0) = None.
+(* ---------- Export on object graphs: total, cycles included ---------- *)
+From Coq Require Import Lia.
+
+Lemma existsb_eqb_in : forall i l, existsb (Nat.eqb i) l = true <-> In i l.
 Proof.
-  induction fuel as [|f IH]; [reflexivity|].
-  simpl. rewrite IH. reflexivity.
+  intros i l. rewrite existsb_exists. split.
+  - intros (x & Hx & E). apply Nat.eqb_eq in E. subst. assumption.
+  - intro H. exists i. split; [assumption | apply Nat.eqb_refl].
 Qed.
 
-(* an acyclic graph {a: {b: 1}, c: 2} is exported once the fuel covers its depth *)
+(* the objects export is inside of are distinct objects of the heap, so there are at most length h of them *)
+Lemma inside_bound : forall (h : heap) inside, NoDup inside -> (forall j, In j inside -> (j < length h)%nat) ->
+  (length inside <= length h)%nat.
+Proof.
+  intros h inside Hnd Hb.
+  rewrite <- (seq_length (length h) 0). apply NoDup_incl_length; [assumption|].
+  intros j Hj. apply in_seq. specialize (Hb j Hj). lia.
+Qed.
+
+Lemma gexport_total_aux : forall (h : heap) fuel inside v,
+  NoDup inside -> (forall j, In j inside -> (j < length h)%nat) ->
+  (length h - length inside < fuel)%nat ->
+  exists t, gexport fuel inside h v = Some t.
+Proof.
+  intros h fuel. induction fuel as [|f IH]; intros inside v Hnd Hb Hf; [lia|].
+  destruct v as [n|i]; [eexists; reflexivity|].
+  cbn [gexport]. destruct (existsb (Nat.eqb i) inside) eqn:E; [eexists; reflexivity|].
+  assert (Hni : ~ In i inside).
+  { intro Hin. apply existsb_eqb_in in Hin. congruence. }
+  destruct (Nat.lt_ge_cases i (length h)) as [Hlt|Hge].
+  - (* a real object: one more distinct object on the path *)
+    assert (Hnd' : NoDup (i :: inside)) by (constructor; assumption).
+    assert (Hb' : forall j, In j (i :: inside) -> (j < length h)%nat).
+    { intros j [<-|Hj]; [assumption | apply Hb; assumption]. }
+    pose proof (inside_bound h (i :: inside) Hnd' Hb') as Hlen. cbn [length] in Hlen.
+    assert (Hf' : (length h - length (i :: inside) < f)%nat) by (cbn [length]; lia).
+    generalize (nth i h []). intro props.
+    induction props as [|[k x] r IHr]; [eexists; reflexivity|].
+    destruct (IH (i :: inside) x Hnd' Hb' Hf') as [y Hy].
+    destruct IHr as [t Ht].
+    match type of Ht with option_map GNode ?g = _ => destruct g as [ys|] eqn:G end; [|discriminate].
+    rewrite Hy. eexists. reflexivity.
+  - rewrite nth_overflow by assumption. eexists. reflexivity.
+Qed.
+
+(* EXPORT RETURNS ON EVERY OBJECT GRAPH A SCRIPT CAN BUILD, with fuel (= Go stack depth) bounded by
+   the number of objects *)
+Theorem gexport_total : forall (h : heap) v, exists t, gexport (S (length h)) [] h v = Some t.
+Proof.
+  intros h v. apply gexport_total_aux; [constructor | intros j [] | cbn [length]; lia].
+Qed.
+
+(* var a = {}; a.a = a *)
+Definition cyclic_heap : heap := [[([97], HRef 0)]].
+Lemma export_cyclic_example : gexport 2 [] cyclic_heap (HRef 0) = Some (GNode [([97], GBack)]).
+Proof. vm_compute. reflexivity. Qed.
+
+(* an acyclic graph {a: {b: 1}, c: 2}: shared but not cyclic references are followed *)
 Lemma export_acyclic_example :
-  gexport 3 [[([97], HRef 1%nat); ([99], HNum 2)]; [([98], HNum 1)]] (HRef 0) =
+  gexport 3 [] [[([97], HRef 1%nat); ([99], HNum 2)]; [([98], HNum 1)]] (HRef 0) =
   Some (GNode [([97], GNode [([98], GLeaf 1)]); ([99], GLeaf 2)]).
 Proof. vm_compute. reflexivity. Qed.
